@@ -28,3 +28,5 @@ func TestC27(t *testing.T) { simkit.Main(t, SpecC27()) }
 func TestC37d(t *testing.T) { simkit.Main(t, SpecC37d()) }
 func TestC03(t *testing.T) { simkit.Main(t, SpecC03()) }
 func TestC04(t *testing.T) { simkit.Main(t, SpecC04()) }
+
+func TestC18Solo(t *testing.T) { simkit.Main(t, SpecC18Solo()) }
